@@ -301,6 +301,34 @@ fn ref_check_inner(c: &Case, obs: &mut Obs, w: Wants) -> Result<Outcome, Outcome
         if got.len() != spans.len() {
             return Ok(Outcome::Violated(vec![Finding::new("group_probe_match_count", format!("{} matches", got.len()), format!("{} matches", spans.len()))]));
         }
+        // oracle-free first: analyze and replace read the same capture state, so their group texts
+        // must agree whatever the capture semantics is
+        let mut analyze_entries = None;
+        if w.analyze {
+            if let Ok(entries) = api(engine::analyze(&re, &c.input), "analyze")? {
+                let mut mi = 0;
+                for e in &entries {
+                    if let AEntry::Match(m) = e {
+                        let mut gs = vec![];
+                        analyze_groups(m, &mut gs);
+                        let rep = &got[mi.min(got.len() - 1)];
+                        for (nr, t) in &gs {
+                            if *nr <= ng && rep[*nr - 1] != *t {
+                                return Ok(Outcome::Violated(vec![Finding::new("analyze_group_text_differs_from_replace", format!("analyze group {} = {:?}", nr, t), format!("replace ${} = {:?}", nr, rep[*nr - 1]))]));
+                            }
+                        }
+                        for g in 1..=ng {
+                            if !gs.iter().any(|(nr, _)| *nr == g) && !rep[g - 1].is_empty() {
+                                return Ok(Outcome::Violated(vec![Finding::new("analyze_group_missing", format!("group {} absent from analyze", g), format!("replace ${} = {:?}", g, rep[g - 1]))]));
+                            }
+                        }
+                        mi += 1;
+                    }
+                }
+                obs.count("analyze_vs_replace_consistency_checked");
+                analyze_entries = Some(entries);
+            }
+        }
         let mut groups_judged = false;
         if w.groups {
             if strict && spans == ref_spans[0] {
@@ -339,7 +367,7 @@ fn ref_check_inner(c: &Case, obs: &mut Obs, w: Wants) -> Result<Outcome, Outcome
             }
         }
         if w.analyze {
-            if let Ok(entries) = api(engine::analyze(&re, &c.input), "analyze")? {
+            if let Some(entries) = analyze_entries {
                 if let Some(p) = analyze_structure(&ast, &input, &entries) {
                     return Ok(Outcome::Violated(vec![Finding::new("analyze_structure", p, "well-nested group entries that concatenate to the input")]));
                 }
@@ -349,17 +377,6 @@ fn ref_check_inner(c: &Case, obs: &mut Obs, w: Wants) -> Result<Outcome, Outcome
                     if let AEntry::Match(m) = e {
                         let mut gs = vec![];
                         analyze_groups(m, &mut gs);
-                        let rep = &got[mi.min(got.len() - 1)];
-                        for (nr, t) in &gs {
-                            if *nr <= ng && rep[*nr - 1] != *t {
-                                return Ok(Outcome::Violated(vec![Finding::new("analyze_group_text_differs_from_replace", format!("analyze group {} = {:?}", nr, t), format!("replace ${} = {:?}", nr, rep[*nr - 1]))]));
-                            }
-                        }
-                        for g in 1..=ng {
-                            if !gs.iter().any(|(nr, _)| *nr == g) && !rep[g - 1].is_empty() {
-                                return Ok(Outcome::Violated(vec![Finding::new("analyze_group_missing", format!("group {} absent from analyze", g), format!("replace ${} = {:?}", g, rep[g - 1]))]));
-                            }
-                        }
                         if strict && groups_judged && mi < ref_scans[0].len() && readings.len() == 1 {
                             // participation: absent iff the group did not participate on the reference path
                             let env = &ref_scans[0][mi].2;
